@@ -75,6 +75,27 @@ def measured_beta(g, loc):
     return cosb, tanb
 
 
+def measured_beta_xlow(g):
+    """the same at the x-faces: dx_hat from the cell centre on the inner side to the cell centre on the outer side of the face (the
+    global arrays put x-neighbouring regions side by side), from the face to the first centre at the inner edge of the grid"""
+    h = 1e-6
+    eq = g.eq
+    Rc, Zc, Rx, Zx = g.var("Rxy"), g.var("Zxy"), g.var("Rxy_xlow"), g.var("Zxy_xlow")
+    dR = np.empty_like(Rc)
+    dZ = np.empty_like(Zc)
+    dR[1:], dZ[1:] = Rc[1:] - Rc[:-1], Zc[1:] - Zc[:-1]
+    dR[0], dZ[0] = Rc[0] - Rx[0], Zc[0] - Zx[0]
+    n = np.hypot(dR, dZ)
+    dR, dZ = dR / n, dZ / n
+    pR = (eq.psi(Rx + h, Zx) - eq.psi(Rx - h, Zx)) / (2 * h)
+    pZ = (eq.psi(Rx, Zx + h) - eq.psi(Rx, Zx - h)) / (2 * h)
+    m = np.hypot(pR, pZ)
+    pR, pZ = pR / m, pZ / m
+    c = dR * pR + dZ * pZ
+    sn = dR * pZ + dZ * (-pR)
+    return c, sn / c
+
+
 def obs_C02(g, out):
     orth = g.extra["orthogonal"]
     for loc in ("centre", "xlow", "ylow"):
@@ -108,7 +129,11 @@ def obs_C02(g, out):
             pair(out, "BetaIsMeasuredAngle_cos", loc, region_assemble(g, "cosBeta", loc), cosb, 1e-7, 100)
             pair(out, "BetaIsMeasuredAngle_tan", loc, region_assemble(g, "tanBeta", loc), tanb, 1e-7 * max(1.0, float(np.nanmax(np.abs(tanb)))), 100)
         else:
-            cosb = tanb = None
+            cosb, tanb = measured_beta_xlow(g)
+            cbx = region_assemble(g, "cosBeta", "xlow")
+            if cbx is not None:
+                pair(out, "BetaIsMeasuredAngle_cos", loc, cbx, cosb, 1e-7, 100, dom="awayX")
+                pair(out, "BetaIsMeasuredAngle_tan", loc, region_assemble(g, "tanBeta", "xlow"), tanb, 1e-7 * max(1.0, float(np.nanmax(np.abs(tanb)))), 100, dom="awayX")
         if cosb is not None:
             fq = 1.0 if orth else 100.0     # measured beta carries the error of a finite-difference gradient (~1e-8)
             pair(out, "ClosedForm_g22", loc, up["g22"], 1.0 / (hy * cosb) ** 2, relq(up["g22"]) * fq, 20)
